@@ -140,6 +140,12 @@ class Check:
 
 
 def _load_findings(pid: str) -> list[dict]:
+    """findings.d/<pid>.json is the source (one file per property so that they can be edited independently);
+    KNOWN_FINDINGS.json is the assembled, committed list (tools/mkmanifest.py keeps them identical)."""
+    frag = os.path.join(VERIF, 'findings.d', f'{pid}.json')
+    if os.path.exists(frag):
+        with open(frag) as f:
+            return [e for e in json.load(f) if e.get('property') == pid]
     if not os.path.exists(FINDINGS_FILE):
         return []
     with open(FINDINGS_FILE) as f:
@@ -206,6 +212,7 @@ def run(cls: type[Check], argv=None) -> int:
     chk = cls(args.tier, seed)
     pid = chk.ID
     sys.path.insert(0, REPO)
+    os.environ['PYTHONPATH'] = os.pathsep.join([REPO, os.path.join(VERIF, 'harness')] + ([os.environ['PYTHONPATH']] if os.environ.get('PYTHONPATH') else []))
     logging.disable(logging.CRITICAL)
     threading.excepthook = lambda a: None  # daemon threads of the code under test die silently
 
